@@ -89,6 +89,13 @@ def obligations(repo):
                     functions=["vm_ffi_call_cop"], timeout=900, weight=20, 
                     must_have=[r"vm_ffi_call_cop\.postcondition", r"cop_serialize_value\.precondition", r"COVER"], min_checks=100,
                     witness={"replayer": "cop"}))
+    # empty arrays transfer: the array arm of the decoder under the C16.deser.safe contract, whose completeness clause says an
+    # empty array is accepted and consumes exactly its 6 bytes also at the very end of a payload (non-empty arrays: undecided part)
+    obs.append(dict(id="C15.dec.array.empty", prop="C15", harness=HARNESS, entry="h_safe",
+                    annotate=[("src/nanovm/cop_protocol.c", "contracts/loops/cop_protocol.c.loops")],
+                    defines={"COP_VIEW_SAFE": 1, "COP_SAFE_CLASS": 2}, gi_flags=rec("deserialize_value_at"), replace=HEAPREPL, loops=True,
+                    unwind="auto", strength="X", functions=["deserialize_value_at"], timeout=900,
+                    must_have=[r"deserialize_value_at\.postcondition", r"loop_invariant_step", r"COVER"], min_checks=30, witness=None))
     # a well-formed reply is ACCEPTED (the peer's reply is a ghost script fixed before the call): same harness and
     # caller-view contracts as C16.call, plus the acceptance postconditions (-DCOP_REPLY_ACCEPT)
     obs.append(dict(id="C15.reply.accept", prop="C15", harness="harness/cop_call_h.c", entry="h_call", defines={"COP_REPLY_ACCEPT": 1, "VERIF_COP_MAX_SCALED": 32768},
